@@ -437,11 +437,14 @@ class MarkdownRenderer(BaseRenderer):
                 else:
                     current_line += fragment.text
         else:
-            # render with word wrapping
+            # render with word wrapping.
+            # note: a word may contain line breaks (e.g. an HTML tag spanning several
+            # lines); these are lines of their own, so that each of them gets its
+            # container prefix.
             for word in cls.make_words(fragments):
                 if word == "\n":
                     # hard line break
-                    yield current_line
+                    yield from current_line.split("\n")
                     current_line = ""
                     continue
 
@@ -456,11 +459,11 @@ class MarkdownRenderer(BaseRenderer):
                 if len(test) <= max_line_length:
                     current_line = test
                 else:
-                    yield current_line
+                    yield from current_line.split("\n")
                     current_line = word
 
         if current_line:
-            yield current_line
+            yield from current_line.split("\n")
 
     @classmethod
     def make_words(cls, fragments: Iterable[Fragment]) -> Iterable[str]:
